@@ -135,7 +135,7 @@ JOBS = [
       cbmc=["--unwind", "4", "--unwindset", "myth_notify_workers_exit.0:4", "--unwindset", "setup_migration.0:4", "--unwinding-assertions"],
       defines=["-DMAX_REFUSALS=2", "-DNW_MAX=3"],
       fuc=["myth_startpoint_exit_ex_body", "myth_startpoint_exit_ex_1", "myth_notify_workers_exit", "myth_env_get_randomly",
-           "myth_get_current_env"], timeout=200,
+           "myth_get_current_env"], timeout=600,
       note="bounded: 1..3 workers (static descriptor array), the main thread on any of them, at most 2 refused hand-overs of the main thread "
            "(hence at most 3 migration hops), all loops unwound with unwinding assertions; loop contracts would havoc descriptor pointers "
            "that are dereferenced afterwards, which CBMC's symbolic execution does not survive"),
